@@ -63,6 +63,8 @@ class C17(PropBase):
             # change what the others answer -- re-observe
             prog += [('ids', 0), ('stat', 0, 'coverage', None, None)] + [('stat', 0, 'node_contribution', u, None) for u in ns[:2]]
         prog.append(('iet', 0, 'global', None))
+        if d:
+            prog += [('iet', 0, 'outglobal', None), ('iet', 0, 'inglobal', None)]
         for u in ns:
             prog.append(('iet', 0, 'node', u))
             if d:
@@ -134,7 +136,7 @@ class C17(PropBase):
                 _, _, sel, u = op
                 if not isinstance(stream, list):
                     continue
-                evs = [t for (t, (a, b), o) in stream if sel == 'global' or (sel == 'node' and u in (a, b)) or
+                evs = [t for (t, (a, b), o) in stream if sel in ('global', 'outglobal', 'inglobal') or (sel == 'node' and u in (a, b)) or
                        (sel == 'out' and a == u) or (sel == 'in' and b == u)]
                 # undirected events keep the call's endpoint order: 'node' looks at both endpoints, so orientation is irrelevant
                 gaps = [b - a for a, b in zip(evs, evs[1:])]
